@@ -78,18 +78,18 @@ Section C12_any.
 
   (* subdivision, one level on which nothing is reported: no pair is skipped,
      every pair whose boxes intersect is replaced by its four children *)
-  Theorem C12_subdiv_complete_partial : forall rm_fixed bbox tol tol_deC bez1 k l out seen,
-      (forall p, In p l -> boxes_ok N bbox p = true -> small N bbox tol_deC p = false) ->
-      level N rm_fixed bbox tol tol_deC bez1 k l out seen
-      = mkLS (flat_map (children N (npow N (half N) (k + 2))) (filter (boxes_ok N bbox) l)) out seen.
+  Theorem C12_subdiv_complete_partial : forall rm_fixed bx_fixed bbox tol tol_deC ext bez1 k l out seen,
+      (forall p, In p l -> boxes_ok N bx_fixed bbox p = true -> small N bx_fixed bbox tol_deC ext p = false) ->
+      level N rm_fixed bx_fixed bbox tol tol_deC ext bez1 k l out seen
+      = mkLS (flat_map (children N (npow N (half N) (k + 2))) (filter (boxes_ok N bx_fixed bbox) l)) out seen.
   Proof. exact (level_quiet N). Qed.
   (* ... and the FIRST pair of a level, when small with intersecting boxes, puts
      its point into the approximate solution set (reported, or within tol of an
      earlier report).  Later pairs of the same level may be skipped by the
      remove-while-iterating loop: C12_subdiv_skip_refuted. *)
-  Theorem C12_subdiv_head_reported_partial : forall rm_fixed bbox tol tol_deC bez1 k p r out seen,
-      boxes_ok N bbox p = true -> small N bbox tol_deC p = true ->
-      let st := level N rm_fixed bbox tol tol_deC bez1 k (p :: r) out seen in
+  Theorem C12_subdiv_head_reported_partial : forall rm_fixed bx_fixed bbox tol tol_deC ext bez1 k p r out seen,
+      boxes_ok N bx_fixed bbox p = true -> small N bx_fixed bbox tol_deC ext p = true ->
+      let st := level N rm_fixed bx_fixed bbox tol tol_deC ext bez1 k (p :: r) out seen in
       approx_mem N tol (bezier_point N bez1 (bt1 p)) seen = true
       \/ (In (bt1 p, bt2 p) (ls_out st) /\ In (bezier_point N bez1 (bt1 p)) (ls_seen st)).
   Proof. exact (level_head_reported N). Qed.
@@ -97,12 +97,12 @@ Section C12_any.
   (* REPAIRED redundancy loop (rm_fixed = true): on ANY level, a pair whose boxes
      intersect, that is not yet small and is not related to a reportable pair of
      the level, is subdivided — nothing is skipped (contrast: C12_subdiv_skip_refuted) *)
-  Theorem C12_subdiv_no_skip_fixed : forall bbox tol tol_deC bez1 k l out seen t p,
-      nth_error l t = Some p -> boxes_ok N bbox p = true -> small N bbox tol_deC p = false ->
-      (forall j q, nth_error l j = Some q -> boxes_ok N bbox q = true -> small N bbox tol_deC q = true ->
-                   related N q p = false) ->
+  Theorem C12_subdiv_no_skip_fixed : forall bx_fixed bbox tol tol_deC ext bez1 k l out seen t p,
+      nth_error l t = Some p -> boxes_ok N bx_fixed bbox p = true -> small N bx_fixed bbox tol_deC ext p = false ->
+      (forall j q, nth_error l j = Some q -> boxes_ok N bx_fixed bbox q = true ->
+                   small N bx_fixed bbox tol_deC ext q = true -> related N q p = false) ->
       incl (children N (npow N (half N) (k + 2)) p)
-           (ls_new (level N true bbox tol tol_deC bez1 k l out seen)).
+           (ls_new (level N true bx_fixed bbox tol tol_deC ext bez1 k l out seen)).
   Proof. intros. eapply (level_fixed_no_skip N true); eauto. Qed.
 
   (* Path.intersect: nothing is lost before the joint de-duplication ... *)
@@ -114,12 +114,12 @@ Section C12_any.
   Proof. exact (collect_complete N). Qed.
   (* ... and the de-duplication removes nothing when the reported points are
      pairwise at least tol apart (crossings strictly inside segments, distinct) *)
-  Theorem C12_path_once : forall seg_isect seg_point tol idx_fixed p1 lens1 p2 lens2 raw,
+  Theorem C12_path_once : forall seg_isect seg_point tol idx_fixed jd_fixed plen1 plen2 eps9 p1 lens1 p2 lens2 raw,
       path_eqb N p1 p2 = false ->
       collect N seg_isect idx_fixed p1 lens1 p2 lens2 (list_prod (enum p1) (enum p2)) = IOk raw ->
       ForallOrdPairs (fun a b => far N tol (seg_point (snd (fst (fst b))) (snd (fst b)))
                                            (seg_point (snd (fst (fst a))) (snd (fst a)))) raw ->
-      path_intersect N seg_isect seg_point tol idx_fixed p1 lens1 p2 lens2 = IOk raw.
+      path_intersect N seg_isect seg_point tol idx_fixed jd_fixed plen1 plen2 eps9 p1 lens1 p2 lens2 = IOk raw.
   Proof. exact (path_intersect_keeps N). Qed.
 End C12_any.
 
@@ -157,6 +157,7 @@ Proof. exact sign_change_root. Qed.
 Definition q (n : Z) (d : positive) : Qc := qc n d.
 Definition zc (a b : Z) : Cplx Qc := (q a 1, q b 1).
 Definition tol12 : Qc := q 1 1000000000000.
+Definition ext6 : Qc := q 1 1000000.        (* sqrt(tol_deC): the stopping length of the repaired variant *)
 Definition qlist_eqb (a b : list Qc) : bool :=
   Nat.eqb (length a) (length b) && forallb (fun xy => Qc_eq_bool (fst xy) (snd xy)) (combine a b).
 
@@ -189,9 +190,27 @@ Definition flatq := [zc 0 0; zc 1 0; zc 2 0].
 Definition archq := [zc 0 (-3); zc 1 5; zc 2 (-3)].
 Example C12_prune_zero_width_refuted :
   ceqb NumQ (bezier_point NumQ flatq (q 1 4)) (bezier_point NumQ archq (q 1 4)) = true
-  /\ bezier_intersections NumQ false (bbox_quad NumQ) tol12 tol12 flatq 60 archq = IOk []
-  /\ bezier_intersections NumQ true (bbox_quad NumQ) tol12 tol12 flatq 60 archq = IOk [].
+  /\ bezier_intersections NumQ false false false (bbox_quad NumQ) tol12 tol12 ext6 flatq 60 archq = IOk []
+  /\ bezier_intersections NumQ true false false (bbox_quad NumQ) tol12 tol12 ext6 flatq 60 archq = IOk [].
 Proof. vm_compute. repeat split; reflexivity. Qed.
+
+(* the same pair in the REPAIRED box variant (closed boxes, stop on extent; bx_fixed = true,
+   fixes/C12-subdivision-closed-boxes-extent.diff): both crossings (t = 1/4 and t = 3/4) are found —
+   each twice without the merging step, exactly once with it (mg_fixed = true,
+   fixes/C12-subdivision-merge-duplicates.diff) *)
+Definition near (a b : Qc) : bool := Qc_ltb (nabs NumQ (a - b)%Qc) (q 1 1000000).
+Example C12_prune_zero_width_fixed :
+  match bezier_intersections NumQ true true false (bbox_quad NumQ) tol12 tol12 ext6 flatq 60 archq with
+  | IOk l => Nat.eqb (length l) 4
+             && forallb (fun tt => (near (fst tt) (q 1 4) && near (snd tt) (q 1 4))
+                                   || (near (fst tt) (q 3 4) && near (snd tt) (q 3 4))) l
+  | _ => false end = true.
+Proof. vm_compute. reflexivity. Qed.
+Example C12_merge_duplicates_fixed :
+  match bezier_intersections NumQ true true true (bbox_quad NumQ) tol12 tol12 ext6 flatq 60 archq with
+  | IOk [(t1, t2); (u1, u2)] => near t1 (q 1 4) && near t2 (q 1 4) && near u1 (q 3 4) && near u2 (q 3 4)
+  | _ => false end = true.
+Proof. vm_compute. reflexivity. Qed.
 
 (* remove-while-iterating: two parabolas that cross at t1 = t2 = 1/3 (point
    12+53i) and at t1 = t2 = 2/3 (point 24+50i), both transversally.  The machine
@@ -203,14 +222,14 @@ Definition para2 := [zc 0 22; zc 18 94; zc 36 13].
 Example C12_subdiv_skip_refuted :
   ceqb NumQ (bezier_point NumQ para1 (q 1 3)) (bezier_point NumQ para2 (q 1 3)) = true
   /\ ceqb NumQ (bezier_point NumQ para1 (q 2 3)) (bezier_point NumQ para2 (q 2 3)) = true
-  /\ match bezier_intersections NumQ false (bbox_quad NumQ) tol12 tol12 para1 60 para2 with
+  /\ match bezier_intersections NumQ false false false (bbox_quad NumQ) tol12 tol12 ext6 para1 60 para2 with
      | IOk [(t1, t2)] => Qc_ltb t1 (q 1 2) && Qc_ltb t2 (q 1 2)
      | _ => false end = true.
 Proof. vm_compute. repeat split; reflexivity. Qed.
 
 (* the repaired loop (rm_fixed = true) on the same pair: both crossings *)
 Example C12_subdiv_skip_fixed :
-  match bezier_intersections NumQ true (bbox_quad NumQ) tol12 tol12 para1 60 para2 with
+  match bezier_intersections NumQ true false false (bbox_quad NumQ) tol12 tol12 ext6 para1 60 para2 with
   | IOk [(t1, t2); (u1, u2)] => Qc_ltb t1 (q 1 2) && Qc_ltb (q 1 2) u1 && Qc_ltb t2 (q 1 2) && Qc_ltb (q 1 2) u2
   | _ => false end = true.
 Proof. vm_compute. reflexivity. Qed.
@@ -227,15 +246,25 @@ Definition tri_twice : list (seg Qc) :=
 Definition tri_lens : list Qc := [q 1 5; q 4 15; q 1 3; q 1 5].
 Definition probe : list (seg Qc) := [SLine (zc 1 (-1)) (zc 1 1)].
 Example C12_path_duplicate_segment_refuted :
-  imap (@length _) (path_intersect NumQ isect_lines lines_point tol12 false tri_twice tri_lens probe [q 1 1])
+  imap (@length _) (path_intersect NumQ isect_lines lines_point tol12 false false (q 15 1) (q 2 1) (q 1 1000000000) tri_twice tri_lens probe [q 1 1])
   = IOk 1%nat
   (* enumerate instead of index() does not change this: the two entries have the same
      POINT, so the joint de-duplication still removes the second *)
-  /\ imap (@length _) (path_intersect NumQ isect_lines lines_point tol12 true tri_twice tri_lens probe [q 1 1])
+  /\ imap (@length _) (path_intersect NumQ isect_lines lines_point tol12 true false (q 15 1) (q 2 1) (q 1 1000000000) tri_twice tri_lens probe [q 1 1])
      = IOk 1%nat
   /\ ceqb NumQ (lines_point (nth 3 tri_twice (SLine (zc 0 0) (zc 0 0))) (q 1 3))
                (lines_point (nth 0 probe (SLine (zc 0 0) (zc 0 0))) (q 1 2)) = true.
 Proof. vm_compute. repeat split; reflexivity. Qed.
+
+(* the REPAIRED joint de-duplication (jd_fixed = true, fixes/C12-path-joint-dedup-same-place.diff;
+   with positions, idx_fixed = true): the two traversals are different places of path1
+   (T1 = 1/15 and 13/15), both entries are kept *)
+Example C12_path_repeated_traversal_fixed :
+  match path_intersect NumQ isect_lines lines_point tol12 true true (q 15 1) (q 2 1) (q 1 1000000000)
+                       tri_twice tri_lens probe [q 1 1] with
+  | IOk [e1; e2] => Qc_eq_bool (fst (fst (fst e1))) (q 1 15) && Qc_eq_bool (fst (fst (fst e2))) (q 13 15)
+  | _ => false end = true.
+Proof. vm_compute. reflexivity. Qed.
 
 (* exact crossing counts (Sturm / Tarski query in exact rationals), non-vacuity:
    the cubic (0,-1) (1,3) (2,-3) (3,1) meets the x-axis three times; restricted
@@ -265,6 +294,9 @@ Print Assumptions C12_dedup_as_coded_refuted.
 Print Assumptions C12_prune_zero_width_refuted.
 Print Assumptions C12_subdiv_skip_refuted.
 Print Assumptions C12_subdiv_skip_fixed.
+Print Assumptions C12_prune_zero_width_fixed.
+Print Assumptions C12_merge_duplicates_fixed.
+Print Assumptions C12_path_repeated_traversal_fixed.
 Print Assumptions C12_dedup_fixed_example.
 Print Assumptions C12_dedup_probe.
 Print Assumptions C12_path_duplicate_segment_refuted.
